@@ -1,4 +1,5 @@
 import MantraDex.Model.HistMon
+import MantraDex.Model.SsMon
 import MantraDex.Driver.PoolStream
 
 namespace MantraDex.Driver
@@ -195,6 +196,29 @@ def monOp (op : String) (args : List String) : Option String :=
       pure ((d, v), ts)) nq ts
     some (verdict (monClaim until_ cursor lps paid (if hasQ then some q else none)))
   | "mon_claim_rejected" => some "viol C06-claim-blocked"
+  | "mon_ss_quote" => do
+    -- <pool> <offerDenom> <offer> <askDenom> <gross>
+    let (p, ts) ← pPool args
+    let (od, ts) ← pTok ts
+    let (offer, ts) ← pNat ts
+    let (ad, ts) ← pTok ts
+    let (gross, _) ← pNat ts
+    let amp := match p.ptype with | .stable a => a | .cp => 1
+    let oi ← findIdx (fun c : Coin => c.denom == od) p.assets
+    let ai ← findIdx (fun c : Coin => c.denom == ad) p.assets
+    some (verdict (monSsQuote amp p.decimals (p.assets.map (·.amount)) oi ai offer gross))
+  | "mon_ss_swap" => do
+    -- <pool before> <offerDenom> <offer> <askDenom> <gross> <out = ret+prot+burn>
+    let (p, ts) ← pPool args
+    let (od, ts) ← pTok ts
+    let (offer, ts) ← pNat ts
+    let (ad, ts) ← pTok ts
+    let (gross, ts) ← pNat ts
+    let (out, _) ← pNat ts
+    let amp := match p.ptype with | .stable a => a | .cp => 1
+    let oi ← findIdx (fun c : Coin => c.denom == od) p.assets
+    let ai ← findIdx (fun c : Coin => c.denom == ad) p.assets
+    some (verdict (monSsSwap amp p.decimals (p.assets.map (·.amount)) oi ai offer gross out))
   | _ => none
 
 end MantraDex.Driver
